@@ -316,7 +316,7 @@ impl<const H: usize> Writer<H> {
 
         self.sync()?;
 
-        self.flushed_offset.set(offset);
+        self.flushed_offset.truncate(offset);
         self.write_offset = offset;
 
         // Move the physical file cursor back as well: the buffered writer keeps appending at
